@@ -165,8 +165,9 @@ func (it *indexedMessageIterator) parseSummarySection() error {
 			}
 			// if the chunk overlaps with the requested parameters, load it
 			if (it.end == 0 && it.start == 0) || (idx.MessageStartTime < it.end && idx.MessageEndTime >= it.start) {
-				// Can't infer absence of a topic if there are no message indexes.
-				if len(idx.MessageIndexOffsets) == 0 {
+				// Can't infer absence of a topic if there are no message indexes, and
+				// without a topic filter every channel is selected.
+				if len(idx.MessageIndexOffsets) == 0 || len(it.topics) == 0 {
 					it.chunkIndexes = append(it.chunkIndexes, idx)
 					continue
 				}
